@@ -944,7 +944,7 @@ def run_unit(u, scratch, repo=None):
         "functions": [f["function"] for f in funcs if f["success"] and not f["function"].startswith("canary_")],
         "rewrites": {k: v for k, v in counts.items()}, "extraction": extraction,
         "canaries": {"expected_to_fail": sorted(canary_names), "failed": sorted(failed_canaries)},
-        "assumed": scan_assumed(text), "imports": u.imports,
+        "assumed": scan_assumed(text), "assumed_names": named_assumptions(u, text), "imports": u.imports,
         "samples": [{"engine": "verus", "function": f["function"], "mode": f["mode"], "rlimit": f["rlimit"]} for f in funcs[:3]],
         "output_tail": stderr[-3000:], "rlimit_retries": retried,
     }
@@ -976,6 +976,27 @@ def run_unit(u, scratch, repo=None):
         res["reason"] = "only proof hints / loop-invariant maintenance failed (proof maintenance, not a verdict): " + "; ".join(hint_fail)[:1500]
         res["hint_failures"] = hint_fail
     return res
+
+
+def named_assumptions(u, text):
+    """Names behind the counts of scan_assumed, measured on the generated text of this run:
+    - contracts of /repo functions assumed in this unit (declared `@opt external_body`: discharged elsewhere, see DESIGN A.3)
+    - contracts imported from other units (proved there)
+    - trusted stand-in functions / axioms of the prelude (tinyvec, core, hash primitive)"""
+    assumed_here = sorted({("%s::%s" % (re.sub(r"^impl(<[^>]*>)?\s*", "", it["impl"]).split(" for ")[-1].split("<")[0].strip(), it["name"]) if it["impl"] else it["name"])
+                           for it in u.items if it["kind"] == "fn" and it["opts"].get("external_body") and not it.get("imported_from")})
+    imported = sorted({it["imported_from"] for it in u.items if it.get("imported_from")})
+    standins = []
+    for m in re.finditer(r"#\[verifier::external_body\]([^\n]*)\n\s*(?://[^\n]*\n\s*)*(?:#\[[^\]]*\]\s*)*(?:pub\s+)?(?:const\s+)?(?:proof\s+)?fn\s+(\w+)", text):
+        if "proved in" in m.group(1) or "contract assumed in this unit" in m.group(1):
+            continue     # imported from a unit that proves it / listed under repo_contracts_assumed_in_this_unit
+        standins.append(m.group(2))
+    axioms = re.findall(r"axiom fn\s+(\w+)", text) + re.findall(r"assume_specification\s*\[\s*([^\]]+)\]", text)
+    uninterp = re.findall(r"uninterp spec fn\s+(\w+)", text)
+    extracted = {it["name"] for it in u.items if it["kind"] == "fn"}
+    return {"repo_contracts_assumed_in_this_unit": assumed_here, "contracts_imported_from_units": imported,
+            "trusted_standin_fns": sorted(set(standins)), "axioms_and_assumed_specs": sorted(set(axioms)),
+            "uninterpreted_spec_fns": sorted(set(uninterp))}
 
 
 def scan_assumed(text):
